@@ -1129,9 +1129,6 @@ class Interp:
                     return ClsRef("ast", d.attr)
                 return Sym(src(node), node)
             if base == "self" and isinstance(env.get("self"), SelfV):
-                key = "<self.%s>" % d.attr
-                if key in env:
-                    return env[key]
                 cls = env.get("<cls>")
                 if cls is not None:
                     f = self.repo.method(cls, d.attr)
@@ -1471,7 +1468,7 @@ class Interp:
                     out += items_of(a)
                 return Seq(out)
             if nm == "set" and not args:
-                return Tup(())
+                return CallV("set", None, (), {}, lineno)
             if nm in ("isinstance", "len", "getattr", "bool", "repr",
                       "enumerate", "zip", "sorted", "filter", "set",
                       "frozenset", "dict", "hasattr", "type", "max", "min"):
